@@ -157,6 +157,16 @@ def run_guards(ctx):
             "the shifted size limit can be bypassed while set_s is true", loc=f.loc)
     d = S(Try(Mentions(Call("log2", S(SIZE)))))
     ctx.require_guard(rule, f, "Ne", SIZE, Bin("Shl", Lit(1), Mentions(Call("log2"))), desc="size != 1 << log2(size) -> Err(SizeInvalid)")
+    # the root one order above the level (needed only by the shifted transform) is looked up only under set_s: looked up
+    # unconditionally, the plain transform would unwrap a missing root at its largest supported size (the capacity check allows
+    # the plain transform one more level than the shifted one)
+    key = K + "next-order-root-only-when-shifted"
+    hi_roots = [(bi, ge_) for bi, t in f.body.calls() for ge_ in [g.eb.call_expr(t)]
+                if t.callee.name == "root" and ge_[0] == "call" and ge_[2] and Bin("Add", Any(), Lit(1), commutative=True)(ge_[2][-1])]
+    from guards import block_conditions
+    bad_sites = [bi for bi, ge_ in hi_roots if not any(c[0] == "truth" and c[2] is True and SET(c[1]) for c in block_conditions(g, bi))]
+    req(ctx, rule, key, bool(hi_roots) and not bad_sites, "root(l + 1) is evaluated only on the set_s path (%d site(s))" % len(hi_roots),
+        "root(l + 1) is evaluated although set_s may be false (blocks %s): the plain transform panics at its largest supported size" % bad_sites, loc=f.loc)
     # error variants
     homes = {id(e.home): e.home for e in g.edges if getattr(e, "virtual", False)}
     errdefs = [rd for rd in g.retdefs if rd.kind == "err"] + [rd for h in homes.values() for rd in ctx.guards(h).retdefs if rd.kind == "err"]
